@@ -255,6 +255,7 @@ type Scenario struct {
 	PVs      []PV                `json:"pvs"`
 	PVCs     []PVC               `json:"pvcs"`
 	Pods     []Pod               `json:"pods"`
+	DRA      *DRA                `json:"dra,omitempty"` // dynamic resource allocation (dra.go); absent = IgnoreDRARequests
 }
 
 const NoInt = -1000
@@ -464,6 +465,9 @@ func (s *Scenario) Normalise() {
 	}
 	for i := range s.Pods {
 		s.Pods[i].normalise()
+	}
+	if s.DRA != nil {
+		s.DRA.normalise()
 	}
 	s.completeUniverse()
 }
